@@ -294,9 +294,11 @@ impl Tokenizer<'_> {
                 }
 
                 ')' | ']' | '}' => {
+                    // `current_index` is relative to `bracket_start`.
+                    let absolute_index = ByteIndex(bracket_start.0 + current_index);
                     let Some(top) = stack.pop() else {
                         return Err(KikiErr::Lex(
-                            ByteIndex(current_index),
+                            absolute_index,
                             Some(current),
                         ));
                     };
@@ -304,7 +306,7 @@ impl Tokenizer<'_> {
                         ('(', ')') | ('[', ']') | ('{', '}') => {}
 
                         _ => {
-                            return Err(KikiErr::Lex(ByteIndex(current_index), Some(current)));
+                            return Err(KikiErr::Lex(absolute_index, Some(current)));
                         }
                     }
                 }
